@@ -29,7 +29,7 @@ ASSUMPTIONS = ["decorator closures expose the guard specifications (closure intr
                "mpmath.findroot from the returned value finds the root the function aimed at",
                "vf/data/c02_exceptions.json lists the functions documented to return a magnitude or a rounded-up integer"]
 N = {"quick": 3, "thorough": 12}
-MIN_REACH = {"quick": {"vector_roundtrips": 60, "law_roundtrips": 80, "functions_covered": 400, "calls_compared": 1000, "respelled": 800, "ceil_near_integer": 5},
+MIN_REACH = {"quick": {"vector_roundtrips": 60, "law_roundtrips": 80, "functions_covered": 400, "calls_compared": 1000, "respelled": 800, "ceil_near_integer": 5, "sign_patterns_compared": 400, "indexed_functions_covered": 15, "indexed_calls_compared": 80},
              "thorough": {"functions_covered": 400, "calls_compared": 4000}}
 SHARD_TIMEOUT = {"quick": 900, "thorough": 3300}
 mpmath.mp.dps = 50
@@ -38,7 +38,8 @@ mpmath.mp.dps = 50
 def plan(tier, seed):
     names = catalogue.module_names()
     k = 32
-    return [{"_label": "vector-pairs", "kind": "vectors", "seed": seed, "draws": 6 if tier == "quick" else 40}] + [{"_label": f"mods{i}", "modules": names[i::k], "seed": seed, "tuples": N[tier], "tier": tier} for i in range(k)]
+    return [{"_label": "vector-pairs", "kind": "vectors", "seed": seed, "draws": 6 if tier == "quick" else 40},
+            {"_label": "indexed-laws", "kind": "indexed", "seed": seed, "tuples": 6 if tier == "quick" else 60}] + [{"_label": f"mods{i}", "modules": names[i::k], "seed": seed, "tuples": N[tier], "tier": tier} for i in range(k)]
 
 
 def load_exceptions():
@@ -319,6 +320,8 @@ def check_function(r, rec, mod, fname, func, info, tuples, tier, exceptions):
             if len(rec.samples) < 3:
                 rec.sample(dict(case, returned=mpmath.nstr(rv, 12), law_root=mpmath.nstr(rstar, 12)))
             break
+    if held and not exc:
+        sign_patterns(r, rec, func, info, key)
     if exc and exc.get("op") == "ceil":
         ceil_near_integer(r, rec, func, info, key)
     if exc and exc.get("op") == "abs" and exc.get("signs", True):
@@ -327,6 +330,50 @@ def check_function(r, rec, mod, fname, func, info, tuples, tier, exceptions):
         rec.hit("functions_covered")
     elif refused:
         rec.inconc("function refuses every drawn tuple", {"function": key})
+
+
+def sign_patterns(r, rec, func, info, key):
+    """'whatever the magnitudes': all arguments negative, and one random mixed pattern (moderate magnitudes). Counted only
+    when the function returns a real finite value and the law has a root next to it or next to its negative; a function
+    that refuses the arguments, or a law without solution for them, decides nothing."""
+    from symplyphysics import Quantity
+    try:
+        kwargs, desc = make_args(r, info, False)
+    except Exception:  # pylint: disable=broad-except
+        return
+    names = list(kwargs)
+    pats = [tuple(-1 for _ in names)]
+    if len(names) > 1:
+        pats.append(tuple(r.choice((1, -1)) for _ in names))
+    for signs in pats:
+        if all(s_ == 1 for s_ in signs):
+            continue
+        kw = {n_: (Quantity(-1 * kwargs[n_]) if s_ == -1 else kwargs[n_]) for n_, s_ in zip(names, signs)}
+        case = {"function": key, "arguments": desc, "signs": list(signs)}
+        try:
+            with harness.Watchdog(20):
+                res = func(**kw)
+                rv = result_value(res)
+                if not mpmath.isfinite(rv) or abs(mpmath.im(rv)) > mpmath.mpf("1e-12"):
+                    rec.add("sign_pattern_result_not_real")
+                    continue
+                rstar = solve_reference(info, kw, rv)
+                pert = {p: Fr(r.choice([1, -1]), 10**13) for p in kw}
+                rpert = solve_reference(info, kw, rstar, perturb=pert)
+        except TimeoutError:
+            rec.add("sign_pattern_watchdog")
+            continue
+        except Exception:  # pylint: disable=broad-except
+            rec.add("sign_pattern_refused_or_unsolved")
+            continue
+        if abs(mpmath.im(rstar)) > mpmath.mpf("1e-12") * max(1, abs(rstar)) or not rel_close(rstar, rpert, mpmath.mpf("1e-7")):
+            rec.add("sign_pattern_reference_complex_or_ill_conditioned")
+            continue
+        rec.hit("sign_patterns_compared")
+        rec.case((key, "signs", signs), nontrivial=True)
+        if not rel_close(rv, rstar, mpmath.mpf("1e-6")):
+            rec.violation(f"not-a-solution:negative-arguments:{key}", f"{key}({desc}) with argument signs {signs} returned {mpmath.nstr(rv, 15)} but the law {info['law']} is solved by {mpmath.nstr(rstar, 12)}", case)
+            return
 
 
 def abs_with_signs(r, rec, func, info, key):
@@ -539,9 +586,175 @@ def vector_pairs_work(spec, rec):
                 break
 
 
+def expand_indexed(expr, n):
+    """IndexedSum(f, i) / IndexedProduct(f, i) written out for i = 1..n with plain SymPy (no library code)"""
+    import sympy
+    def rec_(e):
+        name = type(e).__name__
+        if name in ("IndexedSum", "IndexedProduct"):
+            f, idx = e.args[0], e.args[1]
+            f = rec_(f)
+            terms = [f.subs(idx, j) for j in range(1, n + 1)]
+            return sympy.Add(*terms) if name == "IndexedSum" else sympy.Mul(*terms)
+        if e.args:
+            return e.func(*[rec_(a) for a in e.args])
+        return e
+    return rec_(expr)
+
+
+def indexed_laws_work(spec, rec):
+    """laws over indexed symbols (sums/products over a sequence): the calculation function is called with sequences of length
+    1..5; the law, written out for that length with own expansion, must hold for the arguments and the returned value
+    (returned value = the scalar result, or - where the guards declare the result to be an element - the missing element)."""
+    import inspect
+    import sympy
+    import symplyphysics  # noqa pylint: disable=unused-import
+    from sympy.physics.units import Quantity as SymQuantity
+    from symplyphysics import Quantity
+    from symplyphysics.core.dimensions import dimension_to_si_unit
+    from symplyphysics.core.symbols.probability import Probability
+    r = harness.rng_for("C02", spec["seed"], "indexed")
+    for name in catalogue.module_names():
+        try:
+            mod = catalogue.import_module(name)
+        except Exception:  # pylint: disable=broad-except
+            continue
+        law = getattr(mod, "law", None)
+        if law is None:
+            law = getattr(mod, "definition", None)
+        if not isinstance(law, sympy.Equality) or not any(type(n_).__name__ in ("IndexedSum", "IndexedProduct") for n_ in sympy.preorder_traversal(law)):
+            continue
+        if law.has(sympy.Derivative, sympy.Integral):
+            continue
+        bases = []
+        for n_ in sympy.preorder_traversal(law):
+            if isinstance(n_, sympy.Indexed) and n_.base not in bases:
+                bases.append(n_.base)
+        short = name.split("symplyphysics.")[-1]
+        for fname, func in catalogue.functions(mod):
+            if not fname.startswith("calculate"):
+                continue
+            key = f"{short}.{fname}"
+            g = catalogue.guard_specs(func)
+            sig = inspect.signature(g["inner"])
+            params = list(sig.parameters)
+            rec.hit("indexed_functions_seen")
+            # which parameter carries which indexed base
+            layout = None
+            if len(params) == 1 and params[0] in g["inputs"] and g["inputs"][params[0]] in bases:
+                layout = [g["inputs"][params[0]]]
+                pairs = False
+            elif len(params) == 1 and "tuple" in str(sig.parameters[params[0]].annotation) and len(bases) == 2:
+                layout, pairs = list(bases), True
+            if layout is None:
+                rec.add("indexed_function_shape_not_covered")
+                continue
+            out_spec = g.get("output")
+            if not isinstance(out_spec, sympy.Basic) or isinstance(out_spec, sympy.physics.units.Dimension):
+                # result declared by dimension only: the scalar on the left of the law, or the missing element of `... = 0`
+                if isinstance(law.lhs, sympy.Symbol) and law.lhs not in bases:
+                    out_spec = law.lhs
+                elif law.rhs == 0 and len(bases) == 1:
+                    out_spec = bases[0]
+            closed = out_spec in bases   # result is the missing element of the sequence
+            for t in range(spec["tuples"]):
+                n = r.randint(1, 5)
+                ann = str(sig.parameters[params[0]].annotation)
+                ints = "int" in ann or ("float" in ann and "Quantity" not in ann)   # plain numbers: whole numbers are used
+                seqs = {}
+                args_cols = []
+                for bi, base in enumerate(layout):
+                    dim = getattr(base, "dimension", None)
+                    unit = dimension_to_si_unit(dim) if dim is not None else 1
+                    col_vals, col_args = [], []
+                    is_prob = pairs and bi == 0
+                    is_count = (pairs and bi == 1) or (ints and not pairs)
+                    if is_prob:
+                        raw = [r.uniform(0.1, 1) for _ in range(n)]
+                        tot = sum(raw)
+                        vals = [round(v / tot, 4) for v in raw]   # a four-decimal table: sums to 1 within the accepted tolerance only
+                        if t % 2 == 0:   # tabulated values rarely add up exactly: off by up to 5e-4 (the function accepts 1e-3)
+                            j_ = r.randrange(n)
+                            vals[j_] = round(min(1.0, max(0.0001, vals[j_] + r.choice([-1, 1]) * r.randint(1, 5) * 1e-4)), 4)
+                        col_vals = [sympy.Rational(str(v)) for v in vals]
+                        col_args = [Probability(v) for v in vals]
+                    elif is_count:
+                        vals = [r.randint(0, 12) for _ in range(n)]
+                        col_vals = [sympy.Integer(v) for v in vals]
+                        col_args = list(vals)
+                    else:
+                        for _ in range(n):
+                            m = Fr(r.randint(1, 9999), 1000) * r.choice([1, 1, 1, -1])
+                            v = sympy.Rational(m.numerator, m.denominator)
+                            q = Quantity(v * unit) if unit != 1 else Quantity(v)
+                            col_args.append(q)
+                            col_vals.append(sympy.nsimplify(q.scale_factor, rational=True))
+                    seqs[base] = col_vals
+                    args_cols.append(col_args)
+                arg = list(zip(*args_cols)) if pairs else args_cols[0]
+                case = {"function": key, "sequence": [str(a) for a in (arg if not pairs else [tuple(map(float, a_)) for a_ in arg])][:6]}
+                try:
+                    with harness.Watchdog(60):
+                        res = func(arg)
+                    rv = result_value(res)
+                except TimeoutError:
+                    rec.inconc("watchdog in calculate function", {"function": key})
+                    break
+                except Exception:  # pylint: disable=broad-except
+                    rec.add("indexed_refused")
+                    continue
+                total = n + 1 if closed else n
+                full = expand_indexed(law.lhs - law.rhs, total)
+                sub = {}
+                for base, vals in seqs.items():
+                    for j, v in enumerate(vals, 1):
+                        sub[base[j]] = v
+                z = sympy.Symbol("z_unknown")
+                if closed:
+                    sub[out_spec[total]] = z
+                elif out_spec is not None and out_spec in law.free_symbols:
+                    sub[out_spec] = z
+                else:
+                    rec.add("indexed_result_symbol_not_identifiable")
+                    break
+                expr = full.xreplace(sub)
+                expr = expr.xreplace({q: sympy.nsimplify(q.scale_factor, rational=True) for q in expr.atoms(SymQuantity)})
+                # the statistical weight of a macrostate, where the law leaves it free, is the multinomial coefficient of the
+                # occupation numbers (the law the function itself cites)
+                extra = [s_ for s_ in expr.free_symbols if s_ is not z]
+                if extra and pairs:
+                    counts = seqs[layout[1]]
+                    w = sympy.factorial(sum(counts))
+                    for c_ in counts:
+                        w = w / sympy.factorial(c_)
+                    expr = expr.xreplace({extra[0]: w}) if len(extra) == 1 else expr
+                if [s_ for s_ in expr.free_symbols if s_ is not z]:
+                    rec.add("indexed_law_has_other_free_symbols")
+                    break
+                try:
+                    sols = sympy.solve(expr, z)
+                    sols = [to_mp(s_) for s_ in sols]
+                except Exception:  # pylint: disable=broad-except
+                    rec.add("indexed_reference_not_solvable")
+                    break
+                if not sols:
+                    rec.add("indexed_reference_not_solvable")
+                    continue
+                rec.hit("indexed_calls_compared")
+                rec.case((key, str(case["sequence"])), nontrivial=n > 1)
+                if not any(rel_close(rv, s_, mpmath.mpf("1e-9")) or abs(rv - s_) < mpmath.mpf("1e-12") for s_ in sols):
+                    rec.violation(f"not-a-solution:{key}", f"{key}({case['sequence']}) returned {mpmath.nstr(rv, 15)} but the law {law}, written out for {total} elements, is solved by {[mpmath.nstr(s_, 12) for s_ in sols]}", case)
+                    break
+            else:
+                rec.hit("indexed_functions_covered")
+
+
 def work(spec, rec):
     if spec.get("kind") == "vectors":
         vector_pairs_work(spec, rec)
+        return
+    if spec.get("kind") == "indexed":
+        indexed_laws_work(spec, rec)
         return
     import symplyphysics  # noqa pylint: disable=unused-import
     r = harness.rng_for("C02", spec["seed"], spec["_label"])
